@@ -31,6 +31,8 @@ def plan(tier, seed):
            for k in range(12)]
   specs += [{'kind': 'skeleton', 'seed': seed, 'slice': k, 'parts': 8, 'tier': tier,
              'hashseed': (seed * 16 + k + 1) % 4294967295} for k in range(8)]
+  specs += [{'kind': 'trymatrix', 'seed': seed, 'slice': k, 'parts': 8, 'tier': tier,
+             'hashseed': (seed * 16 + k + 2) % 4294967295} for k in range(8)]
   return specs
 
 
@@ -414,6 +416,15 @@ def run_slice(spec):
       if out['verdict'] == 'ok' and i % 10 == 2:
         out['sample'] = {'case': cid, 'inputs': inputs[:2], 'longest_trace': lt,
                          'traces_checked': out['counters'].get('traces_checked'), 'program': stream.body_of(src)[:1500]}
+      yield out
+  elif spec['kind'] == 'trymatrix':
+    from vf.gen import trymatrix
+    for cid, src, inputs in trymatrix.cases(spec['seed'], spec['slice'], spec['parts'], spec['tier']):
+      out = judge('C05' + cid, src, inputs, ['f'])
+      out.pop('longest_trace', None)
+      out['counters']['nested_try_programs'] = 1
+      if out['verdict'] == 'ok':
+        out['sig'] = cid
       yield out
   else:
     for cid, src, inputs in skeleton.cases(spec['seed'], spec['slice'], spec['parts'], spec['tier'],
